@@ -39,11 +39,15 @@ CHECKSUM_ON = {"scan", "scan_parallel", "scan_filter_cols", "scan_batches", "ite
 def _build(path):
     t = tablekit.create(path)
     t.append_records(tablekit.rows(3, start=0, tag="a"))
-    t.append_records(tablekit.rows(2, start=10, tag="b"))
+    with t.new_transaction() as tx:        # one manifest holding three files
+        tx.append_data(tablekit.rows(2, start=10, tag="b"))
+        tx.append_data(tablekit.rows(2, start=15, tag="b2"))
+        tx.append_data(tablekit.rows(1, start=18, tag="b3"))
+        tx.commit()
     t.append_records(tablekit.rows(2, start=20, tag="c"))
-    victim = tablekit.data_paths(t)[0]
-    with t.new_transaction() as tx:        # rewritten manifest shape too
-        tx.delete_files(["/" + victim])
+    paths = tablekit.data_paths(t)
+    with t.new_transaction() as tx:        # a whole manifest dropped AND a partial delete: the rewritten manifest carries the survivors
+        tx.delete_files(["/" + paths[0], "/" + paths[1]])
         tx.commit()
     return t
 
@@ -129,7 +133,7 @@ def _with_transient(t, rel, fn):
 
 def run(ctx, model_ok):
     rep = Report()
-    rep.rule = ("a table with 4 commits (3 appends + a partial delete that rewrites a manifest): every file reachable from the current snapshot "
+    rep.rule = ("a table with 4 commits (append, a 3-file transaction, append, then a delete dropping one whole manifest and PART of the 3-file one, so a rewritten manifest carries survivors): every file reachable from the current snapshot "
                 "(current metadata file, manifest list, each manifest, each data file) × 12 damage classes (delete, empty, garbage, 5 truncations, "
                 "3 byte flips, swap with a sibling of the same kind) + a transient error on the first touch × 7 read APIs / options. "
                 "non-trivial = the damaged file is touched by the API and the damage makes it unparseable (or the checksum applies).")
